@@ -2,6 +2,7 @@ import BV.Drv.C18
 import BV.Drv.C19
 import BV.Drv.C16
 import BV.Drv.C15
+import BV.Drv.Ash
 
 def dispatch (line : String) : String :=
   match (line.trimAscii.toString.splitOn " ").filter (· ≠ "") with
@@ -9,6 +10,9 @@ def dispatch (line : String) : String :=
   | "c19" :: rest => BV.Drv.C19.handle rest
   | "c16" :: rest => BV.Drv.C16.handle rest
   | "c15" :: rest => BV.Drv.C15.handle rest
+  | "c03" :: rest => BV.Drv.Ash.c03 rest
+  | "c04" :: rest => BV.Drv.Ash.c04 rest
+  | "c02" :: rest => BV.Drv.Ash.c02 rest
   | _ => "bad-op"
 
 partial def loop (h : IO.FS.Stream) (out : IO.FS.Stream) : IO Unit := do
